@@ -281,7 +281,9 @@ class GenericSys:
         out = []
         got = list(self.cls.registered_converters())
         want = [self.fn(i) for i in reversed(self.lst)]
-        if len(got) != len(want) or any(a != b for a, b in zip(got, want)):
+        if len(got) != len(want) or any(
+                (a is not b) if getattr(self, 'BY_IDENTITY', False)
+                else (a != b) for a, b in zip(got, want)):
             out.append(('C12:generic:registered-list',
                         f"registered_converters() has {len(got)} entries, "
                         f"model {list(reversed(self.lst))}"))
@@ -320,9 +322,13 @@ class TableSys(GenericSys):
     ROWS = [
         {(0, 1): (2, 0)},
         {(0, 1): (3, -12), (0, 2): (1, 1)},
+        # the same table as the first one, in another object (and form):
+        # equal content must not make two converters one
+        {(0, 1): (F(2), F(0))},
         {(a, b): (10, 0) for a in range(3) for b in range(3) if a != b},
         {},
     ]
+    BY_IDENTITY = True
 
     def __init__(self, n):
         GenericSys.__init__(self, n)
